@@ -9,7 +9,7 @@ from msdparser import MSDParserError
 
 from .. import gen, models, ops
 from ..core import RunResult, HarnessError, shash
-from ..facades import Facade
+from ..facades import Facade, make_disk
 from ..models import (LoadError, RefSMChart, ref_detect, ref_load, ref_load_sscchart,
                       strip_stray_text, universal_newlines, ref_emit, simfile_from_plain,
                       ref_encoding, DEFAULT_ENCODINGS)
@@ -193,6 +193,7 @@ def generate(prop, rng, run, tier):
            "read_chunk": rng.choice([1, 2, 3, 5, 17, 64, 4096]),
            "buffering": rng.choice([None, None, 2, 9, 64, 8192])}
     if prop == "C03":
+        cfg["real"] = rng.random() < 0.05
         r = rng.random()
         if r < 0.04:
             rel = rng.choice(CORPUS["sm"] + CORPUS["ssc"])
@@ -206,6 +207,11 @@ def generate(prop, rng, run, tier):
             cfg["source"] = "generated"
         names = rng.sample(NAMES, 3)
         sc = {"workload": "load", "property": "C03", "config": cfg, "text": text, "names": names}
+        # history inside the scenario: another text (usually of the other format) is
+        # loaded first through the same entry points under the same file names, so that
+        # anything remembered between loads (by name, by stream, per class) shows up
+        if rng.random() < 0.6:
+            sc["decoy"] = gen_msd_text(rng)
         # stand-alone chart inputs
         if rng.random() < 0.5:
             sc["smchart"] = [rng.choice(["", " ", "\n     "]) + gen.gen_string(rng, "meta", 5)
@@ -227,7 +233,7 @@ def generate(prop, rng, run, tier):
     if rng.random() < 0.5:
         data, how = corrupt(rng, data, other)
         cfg["corrupt"] = how
-    cfg["facade"] = rng.choice(["simfs", "native"])
+    cfg["facade"] = gen.wchoice(rng, [("simfs", 46), ("native", 46), ("memoryfs", 4), ("realos", 4)])
     cfg["fmt"] = fmt
     return {"workload": "load", "property": "C04", "config": cfg, "data": data.hex()}
 
@@ -432,6 +438,30 @@ def check_c03(sc, res):
     def stub(name_kind, name):
         return StubTextIO(text, chunk, random.Random(sr) if sr is not None else None, name_kind, name)
 
+    decoy = sc.get("decoy")
+    if decoy:
+        decoy = _leading_bom_only(_no_trailing_backslash(decoy))
+        for name in sc.get("names", [])[:2]:
+            for fn in (lambda: sfm.loads(decoy, strict=False),
+                       lambda: sfm.load(StubTextIO(decoy, 4096, None, "str", name), strict=False),
+                       lambda: lib.SMSimfile(string=decoy, strict=False),
+                       lambda: lib.SSCSimfile(string=decoy, strict=False)):
+                try:
+                    fn()
+                except (MSDParserError, ValueError):
+                    pass
+            try:
+                ddata = decoy.encode("utf-8")
+            except UnicodeEncodeError:
+                continue
+            for facade in ("simfs", "native"):
+                ddisk = SimDisk({"dirs": ["/d"], "files": {"/d/" + name: ddata.hex()}})
+                with Facade(facade, ddisk) as dfa:
+                    try:
+                        sfm.open("/d/" + name, strict=False, **dfa.kw)
+                    except (MSDParserError, ValueError):
+                        pass
+        res.stats["probe:decoy-loaded-first"] += 1
     ok = True
     # 1. strings, StringIO, iterators of lines
     ok = ok and _judge(res, "loads", text, None, strict, lambda: sfm.loads(text, strict=strict), lib)
@@ -461,41 +491,39 @@ def check_c03(sc, res):
         data = None
     if data is not None:
         for name in sc.get("names", []):
-            for facade in ("simfs", "native"):
+            for facade in ("simfs", "native") + (("memoryfs", "realos") if cfg.get("real") else ()):
                 if not ok:
                     break
                 path = "/d/" + name
                 world = {"dirs": ["/d"], "files": {path: data.hex()}}
-                translate = facade == "native"
+                translate = facade in ("native", "realos")
                 kw = {}
                 if _sane_buffering(cfg.get("buffering")) is not None:
                     kw["buffering"] = cfg["buffering"]
 
                 def via_file():
-                    disk = SimDisk(world, {"short_reads": sr})
+                    disk = make_disk(world, {"short_reads": sr}, None, facade)
                     with Facade(facade, disk) as fa:
-                        if facade == "simfs":
-                            f = fa.fs.open(path, "r", encoding="utf-8", **kw)
-                        else:
-                            import simfile._private.nativeosfs as nmod
-                            f = nmod.NativeOSFS().open(path, "r", encoding="utf-8", **kw)
+                        f = fa.open(path, "r", encoding="utf-8", **kw)
                         with f:
                             r = sfm.load(f, strict=strict)
-                        if disk.buggify["short_read"]:
+                        if disk.buggify.get("short_read"):
                             res.stats["buggify:short_read"] += disk.buggify["short_read"]
                         if any(e[1] == "seek" for e in disk.events):
                             res.stats["probe:file-rewound-after-peek"] += 1
                         return r
 
                 def via_name():
-                    disk = SimDisk(world, {"short_reads": sr})
+                    disk = make_disk(world, {"short_reads": sr}, None, facade)
                     with Facade(facade, disk) as fa:
-                        return sfm.open(path, strict=strict, **dict(fa.kw, **kw))
+                        return sfm.open(fa.p(path), strict=strict, **dict(fa.kw, **kw))
 
                 ok = ok and _judge(res, "load-file:" + facade, text, path, strict, via_file, lib,
                                    translate=translate)
                 ok = ok and _judge(res, "open:" + facade, text, path, strict, via_name, lib,
                                    translate=translate)
+                if facade in ("memoryfs", "realos") and ok:
+                    res.stats["probe:facade:" + facade] += 1
     # 4. class constructors
     for kind, cls in (("sm", lib.SMSimfile), ("ssc", lib.SSCSimfile)):
         if not ok:
@@ -613,22 +641,19 @@ def check_c04(sc, res):
     path = "/d/in." + fmt
     out1 = "/d/out1." + fmt
     out2 = "/d/out2." + fmt
-    disk = SimDisk({"dirs": ["/d"], "files": {path: data.hex()}},
-                   {"short_reads": cfg.get("short_reads"), "short_writes": 4242})
+    disk = make_disk({"dirs": ["/d"], "files": {path: data.hex()}},
+                     {"short_reads": cfg.get("short_reads"), "short_writes": 4242}, None, facade)
     kw = {}
     if _sane_buffering(cfg.get("buffering")) is not None:
         kw["buffering"] = cfg["buffering"]
     guard = sc.get("guard", True)
     with Facade(facade, disk) as fa:
         fkw = dict(fa.kw)
-        if facade == "simfs":
-            opener = fa.fs.open
-        else:
-            import simfile._private.nativeosfs as nmod
-            opener = nmod.NativeOSFS().open
+        opener = fa.open
+        path, out1, out2 = path, out1, out2
         # ---- load 1
         try:
-            sf1 = sfm.open(path, strict=strict, **fkw)
+            sf1 = sfm.open(fa.p(path), strict=strict, **fkw)
         except (MSDParserError, ValueError, UnicodeDecodeError, AssertionError) as e:
             # AssertionError: msdparser's lexer on a text ending in an unpaired
             # backslash (excluded; fixed probe under C03)
@@ -664,10 +689,10 @@ def check_c04(sc, res):
             res.violate(P, "loaded-simfile-cannot-be-serialized", exc=repr(e), state=_trim(m1.plain()),
                         data=sc["data"][:600])
             return
-        bytes1 = bytes(disk.files[norm_(out1)])
+        bytes1 = bytes(disk.snapshot()[0][norm_(out1)])
         # ---- restart; load 2 strictly, same format
         try:
-            sf2 = sfm.open(out1, strict=True, **fkw)
+            sf2 = sfm.open(fa.p(out1), strict=True, **fkw)
         except Exception as e:
             gapped("saved-output-does-not-load", exc=repr(e), output=bytes1[:400].decode("utf-8", "replace"))
             return
@@ -687,16 +712,17 @@ def check_c04(sc, res):
         except Exception as e:
             gapped("second-save-raised", exc=repr(e))
             return
-        bytes2 = bytes(disk.files[norm_(out2)])
+        bytes2 = bytes(disk.snapshot()[0][norm_(out2)])
         if bytes2 != bytes1:
             gapped("second-save-differs", first=bytes1[:400].decode("utf-8", "replace"),
                    second=bytes2[:400].decode("utf-8", "replace"))
             return
         # the stored input is untouched by all of this
-        if bytes(disk.files[norm_(path)]) != data:
+        if bytes(disk.snapshot()[0][norm_(path)]) != data:
             res.violate(P, "input-file-changed-by-load")
             return
     res.stats["probe:cycles-judged"] += 1
+    res.stats["probe:facade:" + facade] += 1
     if cfg.get("corrupt"):
         res.stats["fault:corrupt-stored:" + cfg["corrupt"]] += 1
     if any(v is None for _, v in m1.items):
